@@ -82,8 +82,10 @@ func (d *DNSBuilder) Name(r *rand.Rand, style NameStyle, labels [][]byte) {
 			return
 		}
 		target := d.NameOff[r.IntN(len(d.NameOff))]
+		// a later name may point at this one, also when this one is nothing but a pointer (RFC 1035 4.1.4
+		// allows a pointer to lead to a pointer; compressors that remember whole-name offsets write that)
+		d.NameOff = append(d.NameOff, start)
 		if style == NameCompressed {
-			d.NameOff = append(d.NameOff, start)
 			putLabels(labels)
 		}
 		ptr(target)
